@@ -90,6 +90,31 @@ def check_sanitizer(ctx):
         return isinstance(it, ast.Call) and bool(method_call(it,
                                                              'splitlines'))
 
+    def lines_source(e, depth=6):
+        """e is a collection of single lines: <text>.splitlines(), a copy of
+        one, or a run of an itertools.groupby over one"""
+        if depth <= 0:
+            return False
+        if isinstance(e, ast.Name) and e.id.startswith('SYM_'):
+            d = en.defs.get(e.id)
+            if isinstance(d, ast.AST):
+                return lines_source(d, depth - 1)
+            return False
+        if isinstance(e, ast.Call) and method_call(e, 'splitlines'):
+            return True
+        if isinstance(e, ast.Call) and isinstance(e.func, ast.Name) and \
+                e.func.id in ('list', 'tuple') and len(e.args) == 1:
+            return lines_source(e.args[0], depth - 1)
+        if isinstance(e, ast.Subscript) and is_const(e.slice, 1) and \
+                isinstance(e.value, ast.Name):
+            it = elem_source(en, e.value)
+            it = en.expand(it) if it is not None else None
+            if isinstance(it, ast.Call) and (prog.resolve(
+                    f.module, it.func) or '').endswith(
+                        'itertools.groupby') and it.args:
+                return lines_source(it.args[0], depth - 1)
+        return False
+
     def expand_keep_elems(e):
         return en.expand(e)
 
@@ -204,6 +229,44 @@ def check_sanitizer(ctx):
                 ob(ok, ev.line, U(ev.node)[:80], detail)
             elif mc[1] == 'extend' and len(ev.node.args) == 1:
                 sites.add(ev.line)
+                a = en.expand(ev.node.args[0])
+                if isinstance(a, (ast.GeneratorExp, ast.ListComp)) and len(
+                        a.generators) == 1 and not a.generators[0].ifs:
+                    # one #-prefixed line per line of a run of lines
+                    g = a.generators[0]
+                    ok = False
+                    detail = 'extended by something other than #-prefixed ' \
+                        'single lines'
+                    try:
+                        segs = merge(segments(a.elt))
+                    except Unknown:
+                        segs = None
+                    if segs and isinstance(segs[0], Lit) and \
+                            segs[0].text.startswith('#') and not any(
+                                isinstance(x, Lit) and '\n' in x.text
+                                for x in segs):
+                        ok = True
+                        detail = 'one #-prefixed line per line'
+                        for x in segs[1:]:
+                            if isinstance(x, Join):
+                                ok = False
+                            elif isinstance(x, Hole):
+                                src = x.node
+                                while isinstance(src, ast.Call) and \
+                                        method_call(src) and method_call(
+                                            src)[1] in ('rstrip', 'strip',
+                                                        'lstrip',
+                                                        'expandtabs'):
+                                    src = method_call(src)[0]
+                                if not (isinstance(src, ast.Name) and U(
+                                        src) == U(g.target)
+                                        and lines_source(g.iter)):
+                                    ok = False
+                                    detail = 'the added line embeds %s, ' \
+                                        'which is not a single line taken ' \
+                                        'from splitlines()' % x.source
+                    ob(ok, ev.line, U(a)[:80], detail)
+                    continue
                 ok, detail = wrap_ok(ev.node.args[0])
                 ob(ok, ev.line, U(en.expand(ev.node))[:80], detail)
             elif mc[1] in ('insert', '__setitem__', '__iadd__', 'remove',
